@@ -26,7 +26,7 @@ def classify(ls, ops):
 
 
 def probe_hook(ls, op):
-    if op[0] in ("probe", "probe_hit"):
+    if op[0] in ("probe", "probe_hit", "probe_twin"):
         if ls.last_probe == "some":
             ls.flags.add("probe_some")
         for ft in qast.features(ls.last_query):
